@@ -122,7 +122,7 @@ structure State where
   outs : List Nat       -- values returned by `next()`, oldest first
   errs : Nat            -- exceptions raised by `next()`
   nstop : Nat           -- StopIterations raised by `next()`
-  lost : Nat            -- permits lost with dead workers
+  lost : List Nat       -- indices of the results that died with a worker process (their permits are never returned)
   deriving DecidableEq, Repr
 
 inductive Action
@@ -141,7 +141,7 @@ def init (c : Cfg) : State :=
   { rpc := .init, pulled := 0, inq := [], wk := List.replicate c.N .top, mid := [],
     spc := if c.inOrder then .top else .off, buf := [], cur := 0, sq := [], sem := c.max,
     stop := false, mpstop := false, done := false, sinit := false, store := [],
-    cpc := .boot, snap := 0, steps := 0, got := [], outs := [], errs := 0, nstop := 0, lost := 0 }
+    cpc := .boot, snap := 0, steps := 0, got := [], outs := [], errs := 0, nstop := 0, lost := [] }
 
 /-- What `next(source)` gives at the `i`-th call. -/
 def rawAt (c : Cfg) (i : Nat) : Pay :=
@@ -219,7 +219,7 @@ def stepW (c : Cfg) (s : State) : Action → Option State
     | _ => none
   | .wDie i => if c.proc then
       match s.wk[i]? with
-      | some (.have _) => some { s with wk := s.wk.set i .dead, lost := s.lost + 1 }
+      | some (.have m) => some { s with wk := s.wk.set i .dead, lost := m.idx :: s.lost }
       | some .top => some { s with wk := s.wk.set i .dead }
       | some .chk => some { s with wk := s.wk.set i .dead }
       | some .get => some { s with wk := s.wk.set i .dead }
@@ -280,6 +280,10 @@ def popV (idx : Nat) : List (Nat × Nat) → Option (Nat × Nat) → Option Nat 
     if v ≤ idx then popV idx rest (some (v, x))
     else ((match last with | some (v', x') => if v' = idx then some x' else none | none => none), (v, x) :: rest)
 
+/-- `_maybe_update_snapshot`: adopt the popped snapshot, reset the step counter. -/
+def pickSnap (r : Option Nat) (old : Nat) : Nat := match r with | some x => x | none => old
+def pickSteps (r : Option Nat) (old : Nat) : Nat := match r with | some _ => 0 | none => old
+
 /-- The queue `__next__` reads: the sorter's queue if in_order, else the workers' output queue. -/
 def outq (c : Cfg) (s : State) : List Msg := if c.inOrder then s.sq else s.mid
 
@@ -339,10 +343,9 @@ def stepC (c : Cfg) (s : State) : Action → Option State
     | .pop m =>
       match m.pay with
       | .item y =>
-        let r := popV m.idx s.store none
-        some { s with store := r.2,
-                      snap := (match r.1 with | some x => x | none => s.snap),
-                      steps := (match r.1 with | some _ => 0 | none => s.steps),
+        some { s with store := (popV m.idx s.store none).2,
+                      snap := pickSnap (popV m.idx s.store none).1 s.snap,
+                      steps := pickSteps (popV m.idx s.store none).1 s.steps,
                       got := s.got ++ [m.idx], outs := s.outs ++ [y], cpc := .idle }
       | _ => none
     | _ => none
@@ -414,7 +417,7 @@ def idxs (l : List Msg) : List Nat := l.map Msg.idx
 def cnt (k : Nat) (s : State) : Nat :=
   s.got.count k + optCount k s.cpc.hand + (idxs s.sq).count k + (idxs s.buf).count k
   + optCount k s.spc.hand + (idxs s.mid).count k + (s.wk.map (WPc.cnt k)).sum
-  + (idxs s.inq).count k + optCount k s.rpc.hand
+  + (idxs s.inq).count k + optCount k s.rpc.hand + s.lost.count k
 
 /-- Permits held by the reader. -/
 def RPc.permit : RPc → Nat
